@@ -168,14 +168,140 @@ theorem invS_step {s : Tp} (hq : InvQ s) (h : InvS s) (l : Label) : InvS (s.step
       simp only [step]; repeat' split
       all_goals (first | exact ⟨h0, h1, h2, h3, h4, h5, h6, h7, h8⟩ | closeTSw)
 
+structure InvJ (s : Tp) : Prop where
+  reg_in : ∀ k, k < s.nthreads → k ∈ s.threads
+  threads_reg : ∀ k, k ∈ s.threads ∨ s.worker k = .exited
+  join_eq : s.shutdown = true → s.joinlist = s.threads
+  join_prog : ∀ j, CPc.joining j ∈ s.clients → ∀ m, m < j → s.worker (s.joinlist.getD m 0) = .exited
+  freed_all : s.freed = true → ∀ k, s.worker k = .exited
+
+set_option hygiene false in
+macro "closeTJw" : tactic => `(tactic| (
+  have g1 := fun j x => getD_setAt s.ws k j x WPc.exited
+  simp only [worker] at *
+  constructor <;> (try simp only [worker]) <;> grind [List.mem_erase_of_ne]))
+
+set_option maxHeartbeats 4000000 in
+theorem invJ_step_worker {s : Tp} (hs : InvS s) (h : InvJ s) (k sel : Nat) : InvJ (s.step (.step (.worker k) sel)).1 := by
+  obtain ⟨j1, j2, j3, j4, j5⟩ := h
+  have hov := hs.c_join
+  simp only [step, workerStep]
+  repeat' split
+  all_goals (first | exact ⟨j1, j2, j3, j4, j5⟩ | closeTJw)
+
+set_option hygiene false in
+macro "closeTJc" : tactic => `(tactic| (
+  have sg1 := signalOne_getD s.ws sel
+  have sg2 := signalOne_getD (s.ws ++ [WPc.init true]) sel
+  generalize (signalOne s.ws sel).1 = r1 at *
+  generalize (signalOne (s.ws ++ [WPc.init true]) sel).1 = r2 at *
+  have g3 := fun j => getD_snoc s.ws (WPc.init true) WPc.exited j
+  have g4 := getD_map_wake s.ws
+  have gd := fun j => getD_ge s.ws j WPc.exited
+  have hw := fun j => Stw.wake_cases (s.ws.getD j .exited)
+  have cm := @client_mem s i
+  simp only [worker] at *
+  constructor <;> (try simp only [worker]) <;> grind [mem_setAt, List.mem_append]))
+
+set_option hygiene false in
+macro "closeTJc0" : tactic => `(tactic| (
+  have cm := @client_mem s i
+  simp only [worker] at *
+  constructor <;> (try simp only [worker]) <;> grind [mem_setAt]))
+
+set_option hygiene false in
+macro "closeTJc1" : tactic => `(tactic| (
+  have cm := @client_mem s i
+  have fin := all_exited_of_joined s.ws s.threads s.joinlist
+  have g4 := getD_map_wake s.ws
+  have hw := fun j => Stw.wake_cases (s.ws.getD j .exited)
+  simp only [worker] at *
+  constructor <;> (try simp only [worker]) <;> grind [mem_setAt]))
+
+theorem invJ_step_join {s : Tp} (hs : InvS s) (h : InvJ s) (i sel k : Nat) (hc : s.client i = .joining k) :
+    InvJ (s.step (.step (.client i) sel)).1 := by
+  obtain ⟨j1, j2, j3, j4, j5⟩ := h
+  have hmem : CPc.joining k ∈ s.clients := client_mem hc (by simp)
+  have hsd := hs.c_join k hmem
+  simp only [step, clientStep, hc, ret]
+  split
+  · rename_i hex
+    split
+    · refine ⟨j1, j2, j3, ?_, j5⟩
+      intro j hj m hm
+      rcases mem_setAt hj with hj | hj
+      · injection hj with hj; subst hj
+        rcases Nat.lt_succ_iff_lt_or_eq.1 hm with h | h
+        · exact j4 k hmem m h
+        · subst h; exact hex
+      · exact j4 j hj m hm
+    · rename_i hlast
+      have hall : ∀ k', s.worker k' = .exited := by
+        apply all_exited_of_joined s.ws s.threads s.joinlist j2 (j3 hsd)
+        intro m hm
+        rcases Nat.lt_succ_iff_lt_or_eq.1 (show m < k + 1 by omega) with h | h
+        · exact j4 k hmem m h
+        · subst h; exact hex
+      refine ⟨j1, j2, j3, ?_, fun _ => hall⟩
+      intro j hj m hm
+      rcases mem_setAt hj with hj | hj
+      · cases hj
+      · exact j4 j hj m hm
+  · exact ⟨j1, j2, j3, j4, j5⟩
+
+set_option maxHeartbeats 4000000 in
+theorem invJ_step_client {s : Tp} (hv : s.v = {}) (hs : InvS s) (h : InvJ s) (i sel : Nat) : InvJ (s.step (.step (.client i) sel)).1 := by
+  cases hc : s.client i with
+  | joining k => exact invJ_step_join hs h i sel k hc
+  | idle => simpa [step, clientStep, hc] using h
+  | blocked t b => simpa [step, clientStep, hc] using h
+  | enter c =>
+    obtain ⟨j1, j2, j3, j4, j5⟩ := h
+    have hov := hs.c_join
+    simp only [step, clientStep, ret, hv, hc]
+    repeat' split
+    all_goals (first | exact ⟨j1, j2, j3, j4, j5⟩ | closeTJc0 | closeTJc1 | closeTJc)
+
+
+set_option maxHeartbeats 1000000 in
+theorem invJ_step {s : Tp} (hv : s.v = {}) (hs : InvS s) (h : InvJ s) (l : Label) : InvJ (s.step l).1 := by
+  cases l with
+  | step th sel =>
+    cases th with
+    | worker k => exact invJ_step_worker hs h k sel
+    | client i => exact invJ_step_client hv hs h i sel
+  | call i c =>
+    obtain ⟨j1, j2, j3, j4, j5⟩ := h
+    have hov := hs.c_join
+    simp only [step]; repeat' split
+    all_goals (first | exact ⟨j1, j2, j3, j4, j5⟩ | (simp only [worker] at *; constructor <;> (try simp only [worker]) <;> grind [mem_setAt]))
+  | spur th =>
+    obtain ⟨j1, j2, j3, j4, j5⟩ := h
+    have hov := hs.c_join
+    cases th with
+    | client i => exact ⟨j1, j2, j3, j4, j5⟩
+    | worker k =>
+      simp only [step]; repeat' split
+      all_goals (first | exact ⟨j1, j2, j3, j4, j5⟩ | closeTJw)
+
+theorem not_running_of_all_exited (ws : List WPc) (h : ∀ k, ws.getD k .exited = .exited) (t : Task) :
+    ws.count (.run t) = 0 := by
+  apply List.count_eq_zero.2
+  intro hm
+  obtain ⟨k, hk, he⟩ := List.getElem_of_mem hm
+  have := h k
+  rw [List.getD_eq_getElem?_getD, List.getElem?_eq_getElem hk] at this
+  simp [he] at this
+
 /-- all invariants of the thread pool -/
 structure Inv (s : Tp) : Prop where
   q : InvQ s
   h : InvH s
-  s : InvS s
+  sy : InvS s
+  jn : InvJ s
 
 theorem inv_init (nthreads limit factor n : Nat) (hn : 0 < nthreads) : Inv (init nthreads limit factor n) := by
-  refine ⟨⟨rfl, rfl, by simp [init]⟩, ⟨by simp [init], by simp [init], ?_⟩, ?_⟩
+  refine ⟨⟨rfl, rfl, by simp [init]⟩, ⟨by simp [init], by simp [init], ?_⟩, ?_, ?_⟩
   · intro t; simp [init, List.count_replicate]
   · have hw : ∀ k, (init nthreads limit factor n).worker k = if k < nthreads then .init true else .exited := by
       intro k
@@ -190,9 +316,22 @@ theorem inv_init (nthreads limit factor n : Nat) (hn : 0 < nthreads) : Inv (init
     · intro h; simp [init] at h
     · intro t b; simp [init, List.mem_replicate]
     · intro j; simp [init, List.mem_replicate]
+  · have hw : ∀ k, (init nthreads limit factor n).worker k = if k < nthreads then .init true else .exited := by
+      intro k
+      simp only [worker, init, List.getD_eq_getElem?_getD, List.getElem?_replicate]
+      split <;> rfl
+    refine ⟨?_, ?_, ?_, ?_, ?_⟩
+    · intro k hk; have hk' : k < nthreads := hk; simp [init, hk']
+    · intro k
+      by_cases hk : k < nthreads
+      · left; simp [init, hk]
+      · right; rw [hw, if_neg hk]
+    · intro h; simp [init] at h
+    · intro j hj; simp [init, List.mem_replicate] at hj
+    · intro h; simp [init] at h
 
 theorem inv_step {s : Tp} (h : Inv s) (l : Label) : Inv (s.step l).1 :=
-  ⟨invQ_step h.q l, invH_step h.q.fixed h.h l, invS_step h.q h.s l⟩
+  ⟨invQ_step h.q l, invH_step h.q.fixed h.h l, invS_step h.q h.sy l, invJ_step h.q.fixed h.sy h.jn l⟩
 
 theorem inv_run {s : Tp} (h : Inv s) (ls : List Label) : Inv (s.run ls) := by
   induction ls generalizing s with
